@@ -73,8 +73,8 @@ def c01(tier):
              + mk("access", 60 if q else 2500, s + 10, "default", n_ops=60, precondition=False)
              # long histories: thousands of operations on one daemon (tables that have grown and emptied again, ids and counters far
              # from their start, memory that has been through many hands)
-             + mk("bus", 12 if q else 80, s + 11, "default", n_ops=2500 if q else 12000, opts=dict(weights=w))
-             + mk("bus", 8 if q else 40, s + 12, "tiny", n_ops=2500 if q else 12000, opts=dict(weights=w))
+             + mk("bus", 12 if q else 80, s + 11, "default", n_ops=2500 if q else 6000, opts=dict(weights=w))
+             + mk("bus", 8 if q else 40, s + 12, "tiny", n_ops=2500 if q else 6000, opts=dict(weights=w))
              # dense runs of occupied slots in the path index (elements far behind their home bucket) with a subscriber watching
              + mk("cluster", 24 if q else 800, s + 13, "default", cluster=(40, 2, "low")) + mk("cluster", 16 if q else 500, s + 14, "default", cluster=(48, 3, "end"))
              + mk("cluster", 8 if q else 300, s + 15, "roomy", cluster=(40, 2, "wrap")))
@@ -82,7 +82,7 @@ def c01(tier):
     fres, fcases = fetch_allocfail_cases(tier, s)
     res = fres + run_cases(cases + fcases)
     return report("C01", "exploration", res,
-                  "random histories (40..250 operations, and a few of 2 500 - thorough: 12 000 - operations on one daemon) of add/remove/change/fetch/unfetch/get/connect/disconnect by 2-7 peers over raw, unix and WebSocket transports, random "
+                  "random histories (40..250 operations, and a few of 2 500 - thorough: 6 000 - operations on one daemon) of add/remove/change/fetch/unfetch/get/connect/disconnect by 2-7 peers over raw, unix and WebSocket transports, random "
                   "segmentation and epoll batching, plus subscribers whose socket takes the daemon's output slowly (short writes, would-block, refills) without ever overflowing the write buffer, plus one fetch / unfetch with allocation number n failing, for every n (the subscription must exist completely or not at all, as answered), plus histories with a credential file and access groups (visibility); every active fetch's replica (replayed add/change/remove stream) is compared with the reference model at "
                   "every quiescent point and at the fetch response; distinct = (monitor, when, size class, rule kind, transport / response class) signatures observed",
                   t0, tier, SIM_ASSUME, min_events={"replica_checks_nonempty": 1000, "note_remove": 50, "note_change": 50, "resource_refusals": 1})
@@ -124,15 +124,15 @@ def c03(tier):
              + mk("bus", 80 if q else 3000, s + 4, "odd", n_ops=120, opts=dict(weights=w, hostile_owner=0.15))
              # long histories: many hundreds of routed requests through one daemon (request counter far from its start, routing
              # tables filled and emptied many times)
-             + mk("bus", 12 if q else 80, s + 5, "default", n_ops=2500 if q else 12000, opts=dict(weights=w, hostile_owner=0.1))
-             + mk("bus", 6 if q else 40, s + 6, "tiny", n_ops=2500 if q else 12000, opts=dict(weights=w, hostile_owner=0.1))
+             + mk("bus", 12 if q else 80, s + 5, "default", n_ops=2500 if q else 6000, opts=dict(weights=w, hostile_owner=0.1))
+             + mk("bus", 6 if q else 40, s + 6, "tiny", n_ops=2500 if q else 6000, opts=dict(weights=w, hostile_owner=0.1))
              # "the owner's result or error payload unchanged if the owner answers before the deadline" - also when disarming the timer fails
              + mk("deadline-cancelfault", 60 if q else 2000, s + 7, "default")
              # "a request id unique among in-flight routed requests", "does not depend on anything a third peer does": successors of callers that left
              + mk("deadline-successor", 40 if q else 1500, s + 8, "default", reuse=True))
     res = run_cases(cases)
     return report("C03", "exploration", res,
-                  "random histories (80..300 operations, and a few of 2 500 - thorough: 12 000 - operations with many hundreds of routed requests through one daemon) of set/call from several callers to several owners with owner replies (result, error, forged id, duplicated), clock advances up "
+                  "random histories (80..300 operations, and a few of 2 500 - thorough: 6 000 - operations with many hundreds of routed requests through one daemon) of set/call from several callers to several owners with owner replies (result, error, forged id, duplicated), clock advances up "
                   "to and past deadlines, connects and disconnects of all roles; routing ledger: forwarded exactly once and only to the owner with unchanged "
                   "payload and unique id, exactly one final answer (owner payload / error only when the deadline passed or the owner left / refusal only when the "
                   "in-flight limit can be in play); distinct = outcome and deadline-source signatures",
@@ -157,10 +157,10 @@ def c04(tier):
     # requests without a usable id (absent, null, bool, object, array) are not answered: their effect is read back
     cases += mk("idless", 60 if q else 3000, s + 6, "default", n_ops=30) + mk("idless", 20 if q else 1000, s + 7, "tiny", n_ops=30)
     # long histories: the same few paths added and removed thousands of times by changing owners
-    cases += mk("bus", 10 if q else 80, s + 8, "default", n_ops=2500 if q else 12000, opts=dict(weights=w, rich=True)) + mk("bus", 6 if q else 40, s + 9, "tiny", n_ops=2500 if q else 12000, opts=dict(weights=w))
+    cases += mk("bus", 10 if q else 80, s + 8, "default", n_ops=2500 if q else 6000, opts=dict(weights=w, rich=True)) + mk("bus", 6 if q else 40, s + 9, "tiny", n_ops=2500 if q else 6000, opts=dict(weights=w))
     res = nres + run_cases(cases + ncases)
     return report("C04", "exploration", res,
-                  "random sequences (90..220 steps, and a few of 2 500 - thorough: 12 000 - steps on one daemon) of add/remove/change/set/call/get by several peers over path strings incl. empty, long, non-ASCII, hash-colliding ones and dense runs of neighbouring home buckets (fill until refused / thin out / refill, also across the end of the table) and "
+                  "random sequences (90..220 steps, and a few of 2 500 - thorough: 6 000 - steps on one daemon) of add/remove/change/set/call/get by several peers over path strings incl. empty, long, non-ASCII, hash-colliding ones and dense runs of neighbouring home buckets (fill until refused / thin out / refill, also across the end of the table) and "
                   "arbitrary JSON values; after every response the reference map predicts success/error (resource refusals only where a limit can be in play); a "
                   "fetch-all observer's replica and get results are compared with the reference map at every quiescent point; plus one add / change / remove with allocation number n failing, for every n, "
                   "read back through a fresh connection (an error answer must leave the element, its value and its kind untouched); plus add / change / remove without a usable id, read back after every step; distinct = (method, expected class, "
